@@ -15,6 +15,7 @@ import IgVerif.Model.Traits
 import IgVerif.Model.Scan
 import IgVerif.Model.Determinism
 import IgVerif.Model.Macro
+import IgVerif.Model.Export
 /-! `igdriver <model>`: reads one op per line on stdin, prints one answer per line.
 Byte strings are hex ("-" = empty). -/
 open IgVerif
@@ -653,6 +654,34 @@ def macroStep (_ : Unit) (toks : List String) : IO (Unit × String) := do
     return ((), s!"wl={b01 (Mac.wellLexed Mac.SState.init src)} {hex (Mac.stringify src)}")
   | _ => return ((), "bad-op")
 
+/-! ### export -/
+def setAttr (d : Ex4.Decl) (kv : String) : Ex4.Decl :=
+  match kv.splitOn "=" with
+  | [k, v] =>
+    let b := v == "1"
+    match k with
+    | "template" => { d with template := b } | "cfile" => { d with cFile := b } | "local" => { d with localFile := b }
+    | "vis" => { d with vis := v.toNat?.getD 0 } | "static" => { d with isStatic := b } | "deleted" => { d with deleted := b }
+    | "invprot" => { d with involvesProtected := b } | "ignoreinvolved" => { d with ignoreInvolved := b } | "ignoremember" => { d with ignoreMember := b }
+    | "rvalue" => { d with rvalueRef := b } | "fnlike" => { d with functionLike := b } | "scoped" => { d with scopedDecl := b }
+    | "dtor" => { d with isDestructor := b } | "getclasstype" => { d with getClassType := b } | "inhpub" => { d with inheritedPublished := b }
+    | "anymember" => { d with anyMemberExported := b } | "global" => { d with isGlobal := b } | "untyped" => { d with untyped := b }
+    | _ => d
+  | _ => d
+
+def exportStep (_ : Unit) (toks : List String) : IO (Unit × String) := do
+  match toks with
+  | "export" :: kind :: mv :: attrs =>
+    let d := attrs.foldl setAttr ({} : Ex4.Decl)
+    let cfg : Ex4.Cfg := ⟨mv.toNat?.getD 0⟩
+    let gs := match kind with
+      | "function" => some Ex4.functionGates | "method" => some Ex4.methodGates | "struct" => some Ex4.structGates
+      | "enum" => some Ex4.enumGates | "manifest" => some Ex4.manifestGates | "element" => some Ex4.elementGates | _ => none
+    match gs with
+    | some g => return ((), b01 (Ex4.passes g cfg d))
+    | none => return ((), "bad-op")
+  | _ => return ((), "bad-op")
+
 def main (args : List String) : IO UInt32 := do
   let stdin ← IO.getStdin
   match args with
@@ -670,4 +699,5 @@ def main (args : List String) : IO UInt32 := do
   | ["scan"] => loop stdin scanStep (); return 0
   | ["det"] => loop stdin detStep (); return 0
   | ["macro"] => loop stdin macroStep (); return 0
+  | ["export"] => loop stdin exportStep (); return 0
   | _ => IO.eprintln "usage: igdriver <model>"; return 2
